@@ -170,7 +170,7 @@ def run_tlc(ctx, module, cfg, workers=None, timeout=1800, simulate=None, depth=N
     tag = tag or (module + "-" + os.path.splitext(os.path.basename(cfg))[0])
     meta = ctx.path("meta-" + tag)
     workers = workers or NCPU
-    heap = heap or os.environ.get("VERIF_TLC_HEAP", "8g")
+    heap = os.environ.get("VERIF_TLC_HEAP") or heap or "6g"
     cmd = ["java", "-XX:+UseParallelGC", "-Xss512m", "-Xmx" + heap, "-cp", TLC_JAR, "tlc2.TLC",
            "-workers", str(workers), "-metadir", meta, "-config", cfg, "-noGenerateSpecTE"]
     if not deadlock:
@@ -285,9 +285,11 @@ def judge(ctx, module, cfg, obs_path, params=None, workers=None, timeout=3600, t
 # ----------------------------------------------------------------------------- known findings
 
 def load_known(prop):
-    path = os.path.join(VERIF, "known_findings.jsonl")
+    paths = [os.path.join(VERIF, "known_findings.jsonl")] + sorted(glob.glob(os.path.join(VERIF, "known_findings.d", "*.jsonl")))
     out = []
-    if os.path.exists(path):
+    for path in paths:
+        if not os.path.exists(path):
+            continue
         for line in open(path):
             line = line.strip()
             if not line or line.startswith("#") or line.startswith("fixed:"):
@@ -323,7 +325,8 @@ def finish(ctx, verdicts, obs_by_id=None, *, evaluations, rule, nontrivial_keys,
             violations.append(v)
     for sig, (k, vs) in sorted(seen_known.items()):
         print("KNOWN-FINDING: property=%s %s [%s; %d occurrence(s)]" % (ctx.prop, k["what"], sig, len(vs)))
-    replay_dir = os.path.join(VERIF, "replay")
+    outroot = VERIF if REPO == "/repo" else os.path.join(WORKROOT, "alt")   # never clobber evidence when trying another tree
+    replay_dir = os.path.join(outroot, "replay")
     shown = {}
     for v in violations:
         sig = v.get("sig", "?")
@@ -371,8 +374,8 @@ def finish(ctx, verdicts, obs_by_id=None, *, evaluations, rule, nontrivial_keys,
         "coverage": cov, "assumptions": list(assumptions), "wall_s": round(time.time() - ctx.t0, 1),
         "violations": len(violations),
     }
-    os.makedirs(os.path.join(VERIF, "evidence"), exist_ok=True)
-    json.dump(ev, open(os.path.join(VERIF, "evidence", ctx.prop + ".json"), "w"), indent=1)
+    os.makedirs(os.path.join(outroot, "evidence"), exist_ok=True)
+    json.dump(ev, open(os.path.join(outroot, "evidence", ctx.prop + ".json"), "w"), indent=1)
     log("%s %s: %d verdicts, %d rejected (%d known, %d new), %.0fs" % (
         ctx.prop, ctx.tier, len(verdicts), len(bad), len(bad) - len(violations), len(violations), time.time() - ctx.t0))
     return 1 if violations else 0
